@@ -43,6 +43,7 @@ class Ctx(object):
         self._gr = {}
         self._cg = None
         self.notes = []
+        self.undecided_list = []
 
     # ---- lookups -------------------------------------------------------------------------
     def body(self, key_regex, required=True, rule="anchor"):
@@ -92,6 +93,11 @@ class Ctx(object):
     def fail(self, rule, key, site, reason, witness=None):
         self.obligations.append({"rule": rule, "key": key, "ok": False, "site": site, "detail": reason})
         self.findings.append(Finding(self.prop, rule, key, site, reason, witness))
+
+    def undecided(self, rule, key, site, reason):
+        """the construct this rule is about is implemented in a way none of the rule's recognisers covers: the rule
+        neither holds nor fails. Reported (UNDECIDED line, evidence), never an alarm."""
+        self.undecided_list.append({"rule": rule, "instance": key, "site": site, "reason": reason})
 
     def check(self, cond, rule, key, site="", reason="", detail="", witness=None):
         if cond:
@@ -193,6 +199,8 @@ def run(prop, tier="quick", replay=None, repo=None, quiet=False, write_evidence=
     for k in known_keys:
         if k not in fired:
             say("note: known finding %s did not fire on this tree (repaired or construct gone)" % k)
+    for u in ctx.undecided_list:
+        say("UNDECIDED: property=%s %s %s — %s" % (prop, u["instance"], u["site"], u["reason"]))
     for f in new:
         say("FINDING property=%s rule=%s key=%s site=%s\n    %s" % (prop, f.rule, f.key, f.site, f.reason))
         for w in f.witness[:12]:
@@ -229,6 +237,7 @@ def run(prop, tier="quick", replay=None, repo=None, quiet=False, write_evidence=
             "exhaustive": False,
             "selftest": getattr(ctx, "selftest", None),
             "notes": ctx.notes,
+            "undecided": ctx.undecided_list,
         },
         "assumptions": getattr(mod, "TRUSTED", []),
         "wall_s": wall,
@@ -294,7 +303,8 @@ def thorough(prop, mod, ctx, say):
     # (b) self-validation
     sys.path.insert(0, os.path.join(VERIF, "tools"))
     import mutant
-    muts = sorted(glob.glob(os.path.join(VERIF, "selftest", prop, "m*.diff")))
+    muts = sorted(glob.glob(os.path.join(VERIF, "selftest", prop, "m*.diff"))) + \
+        sorted(glob.glob(os.path.join(VERIF, "selftest", "composed", prop + "_*.diff")))   # refactoring + break on top of it
     seeds = []
     for d in sorted(glob.glob(os.path.join(VERIF, "seeded", "*"))):
         try:
@@ -304,33 +314,34 @@ def thorough(prop, mod, ctx, say):
         if meta.get("property") == prop:
             seeds.append(os.path.join(d, "patch.diff"))
     benign = sorted(glob.glob(os.path.join(VERIF, "selftest", prop, "b*.diff"))) + sorted(glob.glob(os.path.join(VERIF, "selftest", "benign", "b*.diff")))
+    # behaviour-preserving refactorings written by independent agents, applied where they touch this property's code
+    AREA = {"conn": ("C01", "C02", "C03", "C04", "C05", "C06", "C07", "C08", "C10", "C14"), "packets": ("C04", "C06", "C08", "C09"),
+            "listener": ("C13", "C14", "C15", "C16", "C17"), "adapters": ("C11", "C12", "C18", "C19", "C20")}
+    for pth in sorted(glob.glob(os.path.join(VERIF, "selftest", "benign_agents", "*.diff"))):
+        if prop in AREA.get(os.path.basename(pth).split("_")[0], ()):
+            benign.append(pth)
     res = {"mutants": {}, "benign": {}, "stale": []}
     failed = []
+    import sweep
+    allp = muts + seeds + benign
+    results = sweep.run_jobs([(p, [prop]) for p in allp], lanes=int(os.environ.get("PV_LANES", "4"))) if allp else {}
     for p in muts + seeds:
         name = os.path.relpath(p, VERIF)
-        try:
-            r = mutant.run_on_patch(p, [prop])
-        except SystemExit as e:
+        r = results.get(os.path.abspath(p), {})
+        if prop not in r or r[prop][0] == 2:
             res["stale"].append(name)
             continue
-        code, keys, _ = r[prop]
-        if code == 2:
-            res["stale"].append(name)
-            continue
+        code, keys = r[prop]
         res["mutants"][name] = keys[:4]
         if code != 1 or not keys:
             failed.append("mutant not reported: " + name)
     for p in benign:
         name = os.path.relpath(p, VERIF)
-        try:
-            r = mutant.run_on_patch(p, [prop])
-        except SystemExit:
+        r = results.get(os.path.abspath(p), {})
+        if prop not in r or r[prop][0] == 2:
             res["stale"].append(name)
             continue
-        code, keys, _ = r[prop]
-        if code == 2:
-            res["stale"].append(name)
-            continue
+        code, keys = r[prop]
         res["benign"][name] = keys[:4]
         if code != 0:
             failed.append("benign refactoring raised an alarm: %s %s" % (name, keys[:3]))
